@@ -40,7 +40,7 @@ claim("C08", "PBT (rapid): metamorphic leaf-wise execution of multi-dimensional 
       "DESIGN.md 4/C08")
 claim("C09", "PBT (rapid): shape-directed selector generator vs. independent reference selector evaluator; invalid steps must error; totality + read-only + cache-independence on arbitrary strings; native go fuzz (thorough)",
       "Generated-input search: selectors derived from the document's shape (with ~15% deliberately invalid steps) judged by a reference evaluator of the documented grammar, arbitrary/mutated selector strings judged for totality and read-only-ness; held on everything explored.",
-      "Meaning asserted only for the documented grammar (assumptions in the evidence file); arbitrary strings are only required to return without panic and without modifying the document.",
+      "Meaning asserted only for the documented grammar (assumptions in the evidence file); arbitrary strings are only required to return without panic and without modifying the document. `{k|string}` on a fraction is judged as \"a decimal text of the number\" (parses back to within 5e-7 or 1e-12 relative), the number of digits shown being open.",
       "DESIGN.md 4/C09")
 
 claim("C15", "PBT: exhaustive enumeration of a finite representative domain (all ordered pairs, all same-kind triples) + rapid random typed values vs. exact math/big rational oracle and algebraic laws",
